@@ -1554,6 +1554,36 @@ func (li *lexInterp) stmt(st ast.Stmt, in []*lexState, fr *lexFrame) lexFlow {
 	case *ast.RangeStmt:
 		// ranges over strings/values in helper code: body interpreted once with possible repetition ignored if it does not touch the lexer
 		if li.touchesStmt(s.Body) {
+			// `for range n { ... }` with an integer n: the body runs an unknown number of times (0, 1, 2, ...); the
+			// states after any number of iterations leave the loop
+			if t := li.info.TypeOf(s.X); t != nil {
+				if b, ok := t.Underlying().(*types.Basic); ok && b.Info()&types.IsInteger != 0 && s.Value == nil {
+					cur := in
+					if li.touchesStmt(s.X) {
+						li.undecided(fr, s, "range count that modifies the lexer state")
+					}
+					head := normalize(cloneAll(cur))
+					var brks []*lexState
+					for iter := 0; iter < 40; iter++ {
+						body := li.block(s.Body.List, cloneAll(head), fr)
+						back := append(body.next, body.cont...)
+						brks = append(brks, body.brk...)
+						for k, v := range body.gotos {
+							fl.gotos[k] = append(fl.gotos[k], v...)
+						}
+						nh := normalize(append(cloneAll(head), back...))
+						if sameStates(nh, head) {
+							break
+						}
+						head = nh
+						if iter == 39 {
+							li.undecided(fr, s, "loop whose abstract state does not stabilise")
+						}
+					}
+					fl.next = normalize(append(head, brks...))
+					return fl
+				}
+			}
 			li.undecided(fr, s, "range loop that modifies the lexer state")
 		}
 		fl.next = in
